@@ -29,8 +29,95 @@ prop("C10", True,
      "cases = rapid-generated event streams (documents of depth <= 5 with namespaces, attributes, comments, PIs, adjacent text, forests; optional surplus top-level end events; optional parser error at a drawn position). Non-trivial = the stream has an inherited prefix overridden further down, or a surplus end event, or >= 3 levels of nesting; distinct by the full event list.",
      ["the scripted Parser obeys the documented Parser contract (namespaces, then attributes, then children; balanced ends apart from generated surplus ends at top level)"])
 
-for pid in ["C01", "C02", "C03", "C04", "C05", "C06", "C07", "C08", "C09", "C11", "C12", "C13", "C14", "C15", "C16",
-            "C17", "C18", "C19", "C20"]:
+EVAL_NOTE = ("Trusts the harness's reference evaluator xref (XPath 1.0 sections 2-4 written from the recommendation over the "
+             "harness's own document model; no code shared with xsel; it evaluates generated ASTs, never expression text) and "
+             "the locator's structural node identity. Open known findings exclude exactly the named behaviour.")
+
+prop("C01", True,
+     "property-based testing (rapid): differential against a reference XPath evaluator over generated documents x every context node x all 13 axes, plus implementation-only partition/duality/root laws",
+     "Generated search: for generated documents (all node kinds, namespaces, top-level comments/PIs/text, forests) every node of every kind is used as context node for steps over all 13 axes and node tests (abbreviated and unabbreviated), multi-step paths and absolute paths inside predicates/arguments; the selected node-set is compared node by node with the reference evaluator. Independently of the reference, the partition law (ancestor/descendant/following/preceding/self), the duality of axis pairs and the root laws are checked on the implementation alone.",
+     EVAL_NOTE + " Name tests on the namespace axis and absolute paths in queries started at an inner cursor are outside the property and never judged.",
+     "5.1",
+     "cases = (generated document, context node, axis::test step) and multi-step / absolute-in-predicate paths from the root. Non-trivial = expected node-set non-empty or context node not an element (steps), expected result non-empty (paths), documents with >= 4 tree nodes (laws); distinct by (document size, context kind and position shape, axis, test kind) resp. by (expression, document).")
+prop("C02", True,
+     "property-based testing (rapid): differential against the reference evaluator for predicate-bearing paths and filter expressions, plus metamorphic identities on the implementation",
+     "Generated search: paths whose steps carry 1-3 predicates (positional, fractional, last()-based, boolean, node-set, string, nested) over forward and reverse axes after steps that select several context nodes, and filter expressions (E)[p], $v[p], f()[p] with continued paths, compared with the reference (per-context-node evaluation, proximity positions, true context size, document-order numbering of filter expressions). Metamorphic identities on the implementation alone: P[n] = P[position()=n], P[last()] = P[position()=last()], P[n.5] = empty, (E)[1] = document-first node, per-parent counts of //x[position() <= k].",
+     EVAL_NOTE, "5.2",
+     "cases = (document, predicate-bearing path or filter expression, bindings). Non-trivial = a predicate saw >= 2 candidates after a step with >= 2 context nodes, or sits on a reverse axis, or its numeric value is non-integral/NaN, or a path continues after a filter expression; distinct by (expression text, document).")
+prop("C03", True,
+     "property-based testing (rapid): validity predicate on returned node-set slices + union algebra between separately executed queries",
+     "Generated search: overlapping and direction-mixing node-set expressions (//x/.., ancestor::*/@*, reverse axis feeding forward/attribute/namespace steps, unions) from drawn context nodes; every returned slice is checked to contain only nodes of the queried document, no node twice, strictly monotone document order (ascending without reverse axis and for unions); A|B = B|A, (A|B)|C = A|(B|C), A|A = A and count(A|B) = count(A)+count(B)-common are checked between separately executed queries. The slice predicate is additionally applied to every node-set any other check obtains.",
+     "Node identity is the locator's structural bijection, not Pos(). Order among one element's attributes/namespace nodes follows the store's list order; caller-ordered variables are not required to come back sorted.",
+     "5.3",
+     "cases = (document, context node, three node-set expressions A, B, C). Non-trivial = operands overlap, or a step produced duplicate candidates, or a reverse axis feeds a further step; distinct by (A, B, C, context node, document).")
+prop("C04", True,
+     "property-based testing (rapid): differential of conversions against the reference (grammar-based string->number, shortest round-tripping number->string) + round-trip oracle + GetCursorString on every node",
+     "Generated search: doubles (rapid.Float64 mixed with a boundary pool), strings (numeral grammar and its near misses, arbitrary Unicode) and node-sets of every kind and order are converted explicitly (string/number/boolean), implicitly (operands, arguments, predicates) and through the returned Result's String()/Number()/Bool(); results are compared with the reference conversions, number(string(x)) = x is checked, and xsel.GetCursorString is compared with the model's string-value for every node of generated documents.",
+     EVAL_NOTE, "5.4",
+     "cases = (source value, conversion site). Non-trivial = the source is in one of the named value classes other than plain integers/plain strings (negative zero, NaN, infinities, subnormal, >2^63, <1e-7, whitespace-padded numeral, exponent/plus/hex/Infinity/NaN-looking strings, empty/reverse-ordered/mixed-content node-sets, every node kind); distinct by (class, conversion, expected value).")
+prop("C05", True,
+     "property-based testing: bounded-exhaustive operand-pool matrix (enumerated) + rapid-generated random operands, differential against the reference and operator symmetries on the implementation",
+     "All ordered pairs of a pool of 52 operands (12 numbers, 12 strings, 2 booleans, 26 node-sets over a pool document) x 6 operators are enumerated completely and compared with XPath 1.0 section 3.4; for each pair L op R = R mirror(op) L and, for non-node-sets, L != R = not(L = R) are checked on the implementation alone. In addition rapid draws random operands (numbers and strings through variables, node-sets as paths and as variables over generated documents).",
+     EVAL_NOTE, "5.5",
+     "cases = (left operand, operator, right operand). Non-trivial = an operand is a node-set of size != 1, a NaN, a whitespace-padded numeral, or the pair orders differently numerically and lexicographically; distinct by (operator, both operand values). The matrix part is exhaustive over the stated pool (noted in evidence), the random part is sampled.")
+prop("C06", True,
+     "property-based testing (rapid): differential of arithmetic and numeric functions against IEEE-754 reference arithmetic; any error is a violation",
+     "Generated search: pairs of doubles (rapid.Float64 mixed with a boundary pool: non-integers, negatives, zeros, |x|<1, |x|>2^63, ties, NaN, infinities) under + - * div mod, unary minus chains, floor/ceiling/round, compound expressions, literal operand forms, and sum()/count() over nodes with fractional, negative, padded and non-numeric text (also delivered by a reverse axis); results compared NaN-aware with Go float64 arithmetic (math.Mod for mod). Any error from these operations is a violation.",
+     EVAL_NOTE + " Sums whose terms are not exactly representable are discarded (addition order is not fixed by the property). The sign of a zero result is only observed through a literal zero divisor.",
+     "5.6",
+     "cases = (operation, operand values). Non-trivial = an operand is not an integer-valued finite double (fraction, huge, zero, NaN, infinity) or a rounding tie; distinct by (operation class, operand values).")
+prop("C07", True,
+     "property-based testing (rapid): differential of the string functions against a rune-based reference + UTF-8 validity + substring-before/after identity",
+     "Generated search: Unicode strings (ASCII, 2/3/4-byte characters, combining marks, XML and non-XML whitespace, empty) and numeric bounds (fractions, negatives, NaN, infinities, huge) bound to variables or written as literals are fed to substring (2 and 3 arguments), string-length, normalize-space, translate (overlapping, repeated, shorter/longer maps), concat, starts-with, contains, substring-before/after and the zero-argument forms; results are compared with the reference working on code points and IEEE comparisons.",
+     EVAL_NOTE, "5.7",
+     "cases = (function, argument values). Non-trivial = an argument has a multi-byte character, or the translate map overlaps/repeats/differs in length, or there are inner whitespace runs, or a bound is non-integral/NaN/infinite; distinct by (function, arguments).")
+prop("C08", True,
+     "property-based testing (rapid): typed ASTs rendered under five styles and evaluated against the AST's reference value; non-expressions built by invalid-by-construction mutations must be rejected",
+     "Generated search: operator-heavy typed ASTs (all binary operators over operands of all types, same- and mixed-precedence chains, unary minus chains, unions, keyword-spelled names, names with '-', '.', digits) are rendered with minimal parentheses, redundant parentheses, arbitrary legal white space, abbreviated steps and all three combined; every rendering must compile and evaluate to the reference value of the AST on a generated document with distinguishable operands (so wrong precedence, associativity, token boundaries or dropped sub-expressions change the value). Token-level mutations that cannot yield an XPath expression (13 families: unbalanced brackets, dangling/leading/doubled operators, empty predicates/parentheses, junk suffixes, illegal characters, '$ name', bad axes, argument lists, numbers, unterminated literals) must make BuildExpr return an error.",
+     EVAL_NOTE + " The seven grammar-level known findings (see known_findings.json) are excluded by construction or by the counted '/*' feature test.",
+     "5.8",
+     "cases = (AST, five renderings, document) and mutated strings. Non-trivial positives = >= 2 binary operators of different precedence or >= 2 of the same, or a keyword-spelled name, or a minus adjacent to a name; negatives: every mutated string; distinct by text.")
+prop("C09", True,
+     "property-based testing (rapid): abstract documents serialised under generated choices, parsed by ReadXml and walked in parallel with the model; targeted malformations must return an error",
+     "Generated search: abstract documents are rendered as XML text under drawn serialisation choices (prefixes, default namespace with undeclaration and rebinding, declaration order, quote style, character/entity references, CDATA splits and empty CDATA, XML declaration with UTF-8 and five 8-bit/ASCII charsets encoded with x/text/charmap, DOCTYPE, prolog/epilog comments and PIs, top-level white space, empty-tag forms); the cursor tree must equal the model (elements, attributes without declarations, merged text, comments, PIs, one namespace node per in-scope binding incl. xml, each owned by its element). Eight families of malformation (mismatched/missing end tag, truncation, undefined entity, invalid character/encoding, unquoted attribute, unknown charset, doubled '<') must yield a non-nil error.",
+     "Inputs stay inside what encoding/xml is documented to handle (no internal DTD subset, no literal tab/newline in attribute values, no unbound prefixes). Only error classes encoding/xml detects are demanded.",
+     "5.9",
+     "cases = (abstract document, serialisation) and malformed byte strings. Non-trivial = the document declares a prefix or default namespace and its serialisation uses at least one of CDATA, a reference, a non-UTF-8 encoding, an XML declaration, a DOCTYPE, a prolog/epilog node, default-namespace undeclaration, or overrides an inherited prefix; distinct by the serialised bytes.")
+prop("C11", True,
+     "property-based testing (rapid): differential under generated binding environments, prefix-renaming metamorphic relation, instrumented user functions, unbound-reference errors",
+     "Generated search: binding environments (aliases, prefixes colliding with the document's, prefixes spelling axis names, namespaced variables reachable through two prefixes) x expressions with prefixed name tests, variables and calls are compared with the reference given the same environment; consistently renaming query prefixes and rebuilding the document with different prefixes must not change results; $v must return exactly the bound value (type, content, order) for all four types; an instrumented user function - also when registered under a builtin's name - must be called once per context node with the evaluated arguments in order, Context.Result() the one-node node-set and ContextPosition() the 0-based index; evaluated references to unbound prefixes, variables and functions must fail.",
+     EVAL_NOTE, "5.11",
+     "cases = (environment, expression, document). Non-trivial = a prefixed name test or namespaced variable is used (diff), every renaming case, every typed variable case, functions that are namespaced or shadow a builtin, every unbound-reference form; distinct by (expression, environment, document).")
+prop("C12", True,
+     "property-based testing (rapid): differential of name()/local-name()/namespace-uri()/count()/lang() against the reference from every context node",
+     "Generated search: every node of every kind as context node x the three name functions without argument, with node-set variables, reverse-axis arguments and generated paths, count() of node-sets and of non-node-sets (error required); lang(L) from every node of documents whose xml:lang attributes come from a tag grammar (equal, case-different, prefix-with-hyphen, prefix-without-hyphen, empty, unrelated; overridden and reset deeper down; a no-namespace 'lang' decoy).",
+     EVAL_NOTE, "5.12",
+     "cases = (document, context node, call). Non-trivial = context node is not a no-namespace element, or the result is a {uri}local name, or an error is required; for lang: every (declared tag, queried tag, context kind) relation; distinct by those tuples.")
+prop("C13", True,
+     "stateful property-based testing (rapid): generated histories of Exec/re-Exec/sub-slice/rebuild/Unmarshal over shared trees, compiled expressions, binding maps and aliased slices, with snapshot invariants after every step",
+     "Generated search: histories of 4-25 operations over one document, 3-6 reused compiled expressions (unions, paths and predicates over $v/$w) and caller-owned binding maps; results are held as caller slices, sub-sliced with spare capacity, bound again as $v and $w (also the same slice twice). After every step the harness compares a deep snapshot of the tree (pointer identity, Pos, kind, names, values, list sizes, parents), every held slice including its backing array up to cap, and the binding maps; re-executions and freshly rebuilt expressions must reproduce the recorded result exactly.",
+     "Results are compared by value and node identity, not by slice identity (returning the caller's slice unchanged is allowed).",
+     "5.13",
+     "cases = histories. Non-trivial = the history re-executes an earlier triple after other queries ran and some query bound a held slice as $v/$w; distinct by (expressions, operations, document).")
+prop("C16", True,
+     "property-based testing (rapid): JSON values mapped directly to the documented tree and compared by parallel walk; truncations and token mutations must return an error",
+     "Generated search: JSON values (objects with duplicate/empty/odd keys, arrays, nested containers, empty containers, strings with escapes and surrogate pairs, numerals incl. -0, exponents, >2^63, subnormal; 1-3 top-level values) rendered with drawn whitespace and escape spellings; the cursor tree must equal the README mapping computed from the value (not from the text): #obj/#arr, member elements in source order, one text node per scalar, siblings never merged; number texts must read back to the same double with minimal digits. Strict prefixes, dropped structural characters and junk insertions that make the text invalid must yield a non-nil error.",
+     "encoding/json's json.Valid / Decoder are used only to discard mutations that happen to stay valid.",
+     "5.16",
+     "cases = (JSON value(s), rendering) and malformed texts. Non-trivial = depth >= 3 with both container kinds, or an empty container after a key, or a scalar following a container among siblings; malformed: every text; distinct by text.")
+prop("C17", True,
+     "property-based testing (rapid): generated tag soup parsed by ReadHtml and compared with an independent recursion over html.Parse's DOM",
+     "Generated search: a doctype followed by random open/close/stray-close tags over a vocabulary chosen to trigger the tree builder's special cases (tables, select, template, script/style/textarea/title, void elements, svg/math/foreignObject, prefixed tag names), text, comments (also after </body>/</html>), attributes incl. duplicates, xmlns, xmlns:x, x:y and foreign-content attributes; the cursor tree must equal the harness's own plain walk of html.Parse's DOM (local names, attributes minus xmlns declarations with prefixes stripped, text, comments, everything in no namespace).",
+     "golang.org/x/net/html (the version /repo's go.mod pins) defines the expected DOM; names with more than one colon are discarded.",
+     "5.17",
+     "cases = HTML texts. Non-trivial = the DOM has >= 8 nodes and at least one of: childless last child, sibling after a depth >= 3 subtree, node after </html>, implied elements, foreign content, template; distinct by text.")
+prop("C18", True,
+     "property-based testing (rapid): differential of relative expressions from every node kind (position 1, size 1) + composition law P/R = union of R from each node of P + P/f() = f(P), on the implementation",
+     "Generated search: every node of every kind as starting cursor x relative expressions (all axes incl. those leaving the subtree, predicates, position(), last(), context-dependent functions) compared with the reference evaluated with that context node, position 1, size 1; for independently drawn absolute P and relative R the node-set of P/R from the root must equal the union over n in Exec(root,P) of Exec(n,R); P/f() must equal f(P) for the seven context-dependent builtins.",
+     EVAL_NOTE, "5.18",
+     "cases = (document, start node, relative expression) and (document, P, R[, f]). Non-trivial = start node is not an element or an axis leaves its subtree; composition: P selects >= 2 nodes and R carries a predicate; distinct by (start kind and shape, expression) resp. (P/R text, document).")
+
+for pid in ["C14", "C15", "C19", "C20"]:
     prop(pid, False, "", "", "", "", "")
 
 
